@@ -166,6 +166,9 @@ class Conv:
                     same = vanishes_under(A_ - B_, d_)
                 except Exception:
                     same = False
+            if not same and (ACTIVE_PATH_DIFFS or A.CTX.hyps):
+                # the condition together with what the path and the standing hypotheses say
+                same = vanishes_under_all(A_ - B_, [d_] + list(ACTIVE_PATH_DIFFS))
             if not same and (x_.is_const() or y_.is_const()):
                 # P == c with P a polynomial: every quotient by (a multiple of) P and every root of it becomes a constant
                 P_, c_ = (y_, x_.const()) if x_.is_const() else (x_, y_.const())
@@ -523,7 +526,7 @@ def single_ret(run, S, name, allow_panics=False):
     if allow_panics == 'arith' and any(not (l['why'].startswith('Overflow') or l['why'] in ('DivisionByZero', 'RemainderByZero', 'OverflowNeg')) for g, l in pans):
         run.ob('%s:%s:panics' % (run.prop, name), False, rule='straight-line', expected='only arithmetic overflow / division-by-zero panics', found=sorted({l['why'] for g, l in pans}), where=r.get('span'))
         return None
-    if 1 < len(rets) <= 16 and not (pans and not allow_panics) and getattr(run, 'split_ok', False):
+    if 1 < len(rets) <= 64 and not (pans and not allow_panics) and getattr(run, "split_ok", False):
         # the code special-cases some inputs: every path is checked on its own, under its own path condition
         raise SplitRoot(name, r, rets)
     if len(rets) != 1 or (pans and not allow_panics):
@@ -606,8 +609,9 @@ def cmp_struct(run, S, name, got, exp, rule, where=None, tag='ret', hyp=None):
             if isinstance(y, El) or isinstance(x, El):
                 ok = A.eq(el_of(x), el_of(y))
                 if not ok and ACTIVE_PATH_DIFFS:
-                    # equal whenever one of the path's own equalities holds (its polynomial form divides the difference)
-                    ok = any(vanishes_under(el_of(x) - el_of(y), d_) for d_ in ACTIVE_PATH_DIFFS)
+                    # equal whenever the path's own equalities (and the standing hypotheses) hold
+                    ok = any(vanishes_under(el_of(x) - el_of(y), d_) for d_ in ACTIVE_PATH_DIFFS) or \
+                        vanishes_under_all(el_of(x) - el_of(y), list(ACTIVE_PATH_DIFFS))
             else:
                 ok = (x == y)
         except (ValueError, ZeroDivisionError) as ex:
@@ -633,14 +637,28 @@ def _path_eq_pairs(S, guards):
 
 def path_infeasible(S, guards, cv=None):
     """a path whose own conditions are contradictory as polynomial identities: an equality required between two things that
-    differ by a non-zero constant (`1 + 1 == 1`), or an inequality required between identical things"""
-    cv = cv or Conv(S)
+    differ by a non-zero constant (`1 + 1 == 1`, or `x == 0` after `x == 1`), an inequality required between identical
+    things, a comparison outcome that contradicts the constants.  Input atoms fixed by earlier equalities of the path are
+    substituted into the later conditions."""
+    env = dict(getattr(S, 'path_env', None) or {})
+    cvx = Conv(S, env=env) if env else Conv(S)
     for kind, tid, want in guards:
         t = S.terms[tid]
+        if kind == 'switch' and t[0] == 'a' and t[1] == 'cmp' and len(t[2]) == 2 and want in (0, 1, 2, 3):
+            try:
+                d = (cvx.el(t[2][0]) - cvx.el(t[2][1])).norm()
+            except Exception:
+                continue
+            if d.is_const():
+                c_ = d.const()
+                actual = 1 if c_ == 0 else (0 if c_ < 0 else 2)
+                if want != actual:
+                    return True
+            continue
         if kind != 'ite' or t[0] != 'a' or t[1] not in ('eq', 'ne') or len(t[2]) != 2:
             continue
         try:
-            d = (cv.el(t[2][0]) - cv.el(t[2][1])).norm()
+            d = (cvx.el(t[2][0]) - cvx.el(t[2][1])).norm()
         except Exception:
             continue
         must_equal = (want is True) == (t[1] == 'eq')
@@ -648,6 +666,18 @@ def path_infeasible(S, guards, cv=None):
             return True
         if not must_equal and d.zero():
             return True
+        if must_equal:
+            # remember `input == value` for the conditions that follow
+            for x, y in ((t[2][0], t[2][1]), (t[2][1], t[2][0])):
+                if S.terms[x][0] == 'v' and S.terms[x][1] not in env:
+                    try:
+                        val = cvx.el(y)
+                    except Exception:
+                        break
+                    if A.CTX.atom(S.terms[x][1]) not in val.atoms():
+                        env[S.terms[x][1]] = val
+                        cvx = Conv(S, env=env)
+                    break
     return False
 
 
@@ -668,9 +698,11 @@ def _leaf_equalities(S, guards):
 ACTIVE_PATH_DIFFS = []
 
 
-def _poly_form(d):
+def _poly_form(d, raw=False):
     """d == 0 rewritten as P == 0 with P free of negative powers: denominators (inv[Q]^e, x^-e) multiplied away"""
     K = A.CTX.kind
+    if raw:
+        return d if A.is_poly(d) and not d.zero() else None
     d = d.norm()
     for _ in range(4):
         negs = {}
@@ -690,6 +722,30 @@ def _poly_form(d):
             f = f.rawmul(El({tuple(sorted((v, -e) for v, e in negs.items())): Fr(1)}))
         d = (d * f).norm()
     return d if A.is_poly(d) and not d.zero() else None
+
+
+def hyp_relations():
+    """the rewrite hypotheses currently installed (unit norms, ...) as polynomials that vanish"""
+    out = []
+    for v, (k, poly) in A.CTX.hyps.items():
+        out.append(El.a(v, k) - poly)
+    return out
+
+
+def vanishes_under_all(D, ds):
+    """D == 0 whenever all of ds are zero (bounded-degree ideal membership; sufficient, not necessary)"""
+    D = D.norm()
+    if D.zero():
+        return True
+    gens = [g for g in (_poly_form(d) for d in ds) if g is not None]
+    gens += [g for g in (_poly_form(d, raw=True) for d in hyp_relations()) if g is not None]
+    Dp = _poly_form(D)
+    if Dp is None or not gens:
+        return False
+    try:
+        return A.in_ideal(Dp, gens)
+    except Exception:
+        return False
 
 
 def vanishes_under(D, d):
@@ -927,6 +983,20 @@ def check_value(run, S, name, expected, rule='K3 ring conformance', post=None, a
     return ok
 
 
+def eq_tests(S, cv, kind, tid, want):
+    """what a guard establishes about exact equality: [(a - b, True/False, text)] for `a == b` / `a != b` tests (if-form)
+    and for `a.partial_cmp(&b)` (match-form: Equal -> True; Less, Greater, unordered -> False)"""
+    t = S.terms[tid]
+    if kind == 'ite':
+        g_ = parse_guard(S, cv, tid)
+        if g_['kind'] == 'eq':
+            return [(g_['a'] - g_['b'], want != g_['neg'], g_['text'])]
+        return []
+    if kind == 'switch' and t[0] == 'a' and t[1] == 'cmp' and len(t[2]) == 2 and want in (0, 1, 2, 3):
+        return [(cv.el(t[2][0]) - cv.el(t[2][1]), want == 1, S.show(tid))]
+    return []
+
+
 def check_option_inverse(run, S, name, n, expect_fn=None, rule='K5 guard pass-set', tag='inverse'):
     """`Option` result of inverting the n x n matrix argument a0, decided path by path: a None leaf lies on a path that
     tested det(M) == 0 true, a Some leaf on a path that tested it false and carries expect_fn(M^-1) (default: M^-1 = adj/det
@@ -962,15 +1032,10 @@ def check_option_inverse(run, S, name, n, expect_fn=None, rule='K5 guard pass-se
             det_truth = None
             shown = []
             for kind, tid, want in guards:
-                if kind != 'ite':
-                    continue
-                g_ = parse_guard(S, cv, tid)
-                if g_['kind'] != 'eq':
-                    continue
-                d = g_['a'] - g_['b']
-                if A.eq(d, D) or A.eq(d, -D):
-                    det_truth = (want != g_['neg'])
-                    shown.append(g_['text'][:100])
+                for d, truth, text in eq_tests(S, cv, kind, tid, want):
+                    if A.eq(d, D) or A.eq(d, -D):
+                        det_truth = truth
+                        shown.append(text[:100])
             v = leaf['v']
             if v.get('n') == 'None':
                 seen['None'] += 1
